@@ -37,6 +37,7 @@ type fault struct {
 	n     int // fail when seen reaches n
 	seen  int
 	armed bool
+	hook  func() // when set: run instead of failing
 }
 
 type verifState struct {
@@ -122,6 +123,19 @@ func VerifFailNth(op string, n int) {
 	verif.faults[op] = &fault{n: n, armed: true}
 }
 
+// VerifOnNth arms a callback instead of a fault: the n-th call (1-based,
+// counted from now) of operation op runs f before it proceeds normally (the
+// call itself does not fail).  f runs without the package lock held.
+func VerifOnNth(op string, n int, f func()) {
+	verif.mu.Lock()
+	defer verif.mu.Unlock()
+	if n <= 0 {
+		delete(verif.faults, op)
+		return
+	}
+	verif.faults[op] = &fault{n: n, armed: true, hook: f}
+}
+
 // VerifClearFaults disarms every fault.
 func VerifClearFaults() {
 	verif.mu.Lock()
@@ -166,16 +180,21 @@ func VerifSerial(idx *IndexImpl) int64 {
 // enter counts a call of op and reports whether an armed fault fires.
 func enter(op string) error {
 	verif.mu.Lock()
-	defer verif.mu.Unlock()
 	verif.calls[op]++
 	if f := verif.faults[op]; f != nil && f.armed {
 		f.seen++
 		if f.seen == f.n {
 			f.armed = false
 			delete(verif.faults, op)
+			verif.mu.Unlock()
+			if f.hook != nil {
+				f.hook()
+				return nil
+			}
 			return injected(op)
 		}
 	}
+	verif.mu.Unlock()
 	return nil
 }
 
